@@ -84,6 +84,8 @@ def run_one(m, suite=False, tier="quick", seed="0"):
                 q2 = subprocess.run([os.path.join(VERIF, "check"), pid, "--replay", rp],
                                     cwd=VERIF, capture_output=True, text=True)
                 res.setdefault("replay_on_clean", {})[pid] = q2.returncode
+                if q2.returncode == 2:
+                    res.setdefault("clean_replay_output", []).append(q2.stdout[-1500:] + q2.stderr[-1500:])
                 try:
                     os.remove(os.path.join(VERIF, rp))
                 except OSError:
@@ -131,6 +133,8 @@ def main():
                   + " ".join(f"{k}:rc={v['rc']},replay={v['replay_reproduces']}"
                              for k, v in res["checks"].items())
                   + (f" clean_replay={res.get('replay_on_clean')}" if res.get("replay_on_clean") else ""))
+            for out in res.get("clean_replay_output", []):
+                print("      CLEAN-REPLAY-RC2: " + out.replace("\n", " | ")[:1500])
             for k, v in res["checks"].items():
                 if v["first"]:
                     print("      " + v["first"][0][:200])
